@@ -247,6 +247,31 @@ type SBad struct {
 	Ch chan int
 }
 
+// two function-local types with the same name and package path
+func localRecA(s string, ord int, iv int64) (interface{}, V) {
+	type Rec struct {
+		K int `clover:"k"`
+		S string
+	}
+	return Rec{K: int(iv), S: s}, V{"struct", []interface{}{
+		fld("K", "k", 0, 0, 1, V{"int", ord, 0, zeroFlag(iv)}),
+		fld("S", "", 0, 0, 1, V{"string", B(s)}),
+	}}
+}
+
+func localRecB(s string, ord int, iv int64, in Inner, inA V) (interface{}, V) {
+	type Rec struct {
+		Name string `clover:"nm,omitempty"`
+		L    uint8
+		Inner
+	}
+	return Rec{Name: s, L: uint8(iv), Inner: in}, V{"struct", []interface{}{
+		fld("Name", "nm", 1, 0, 1, V{"string", B(s)}),
+		fld("L", "", 0, 0, 1, V{"uint", ord, 8, zeroFlag(iv)}),
+		fld("Inner", "", 0, 1, 1, inA),
+	}}
+}
+
 func fld(name, tag string, omit, emb, exported int, g V) []interface{} {
 	return []interface{}{B(name), B(tag), omit, emb, exported, g}
 }
@@ -265,7 +290,29 @@ func (g *goGen) structValue(depth int) (interface{}, V) {
 	s := strPool[g.r.Intn(len(strPool))]
 	var v interface{}
 	var a V
-	switch g.r.Intn(8) {
+	switch g.r.Intn(12) {
+	case 8:
+		// unnamed struct types: distinct types that share package path and (empty) name
+		v = struct {
+			Title string `clover:"title"`
+			Pages int    `clover:"pages,omitempty"`
+		}{Title: s, Pages: int(iv)}
+		a = V{"struct", []interface{}{
+			fld("Title", "title", 0, 0, 1, V{"string", B(s)}),
+			fld("Pages", "pages", 1, 0, 1, V{"int", ord, 0, zeroFlag(iv)}),
+		}}
+	case 9:
+		v = struct {
+			Author string `clover:"author"`
+		}{Author: s}
+		a = V{"struct", []interface{}{
+			fld("Author", "author", 0, 0, 1, V{"string", B(s)}),
+		}}
+	case 10:
+		v, a = localRecA(s, ord, iv)
+	case 11:
+		in, inA := g.inner()
+		v, a = localRecB(s, ord, iv, in, inA)
 	case 0:
 		v = SPlain{A: int(iv), B: s, hidden: 7}
 		a = V{"struct", []interface{}{
